@@ -86,22 +86,114 @@ theorem path_by_name (fields : List Field) (params : List (List Nat × List Nat)
   | ok dps =>
     have hdn : (dps.map (·.1)).Nodup := by rw [decodeParams_keys hd]; exact hpn
     simp only [Except.ok.injEq, exists_eq_left']
-    have hw := pathWalk_ok_iff fields dps [] 
-    constructor
-    · intro h
-      cases hwk : pathWalk fields dps [] with
-      | error e => simp [hwk] at h
-      | ok acc =>
-        simp only [hwk] at h
-        obtain ⟨hacc, hk⟩ := (hw acc hdn (by intro p _; simp [lookup])).mp hwk
-        simp only [List.nil_append] at hacc
-        subst hacc
-        exact (finishFields_eq_spec fields (fun f hf => finishOne_eq_spec hfn hf hdn hk) vals).mp h
-    · intro h
-      have hk := knownParse_of_spec hdn h
-      have hwk : pathWalk fields dps [] = .ok (walkVals fields dps) :=
-        (hw _ hdn (by intro p _; simp [lookup])).mpr ⟨by simp, hk⟩
-      simp only [hwk]
-      exact (finishFields_eq_spec fields (fun f hf => finishOne_eq_spec hfn hf hdn hk) vals).mpr h
+    exact visit_finish_iff pathDe fields dps hfn hdn vals
+
+
+/-- **C15 (5) field-by-name for query strings and URL-encoded bodies**: with distinct field names,
+    `serde_html_form` succeeds with `vals` exactly when `vals` is, field by field, what the field's
+    type makes of *the occurrences of its own key* (in input order) — whatever other keys are present
+    and however the pairs are interleaved. -/
+theorem query_by_name (fields : List Field) (bs : List Nat) (hfn : (fields.map (·.name)).Nodup)
+    (vals : List (List Nat × Val)) :
+    queryExtract fields bs = .ok vals ↔ formSpec (formPairsOwned bs) fields = some vals := by
+  unfold queryExtract
+  rw [visit_finish_iff formField fields _ hfn (groupEntries_nodup _ [] (by simp)) vals,
+      structSpec_grouped]
+
+
+/-- **C15 (6) decode exactly once**: on success every `String`/`Cow<str>` field holds exactly
+    `percentDecode raw` of the parameter of its name — one decoding pass, so a value that itself looks
+    percent-encoded (`%2541`) arrives as `%41`. -/
+theorem path_decode_once (fields : List Field) (params : List (List Nat × List Nat))
+    (hfn : (fields.map (·.name)).Nodup) (hpn : (params.map (·.1)).Nodup)
+    (vals : List (List Nat × Val)) (h : pathExtract fields params = .ok vals)
+    (f : Field) (hf : f ∈ fields) (hty : f.ty = .s .string ∨ f.ty = .s .cow)
+    (raw : List Nat) (hm : (f.name, raw) ∈ params) :
+    lookup f.name vals = some (.s (.str (percentDecode raw))) := by
+  obtain ⟨dps, hd, hs⟩ := (path_by_name fields params hfn hpn vals).mp h
+  have hdn : (dps.map (·.1)).Nodup := by rw [decodeParams_keys hd]; exact hpn
+  obtain ⟨_, hdps⟩ := decodeParams_ok_iff.mp hd
+  have hmem : (f.name, percentDecode raw, percentDecode raw != raw) ∈ dps := by
+    rw [hdps]
+    exact List.mem_map.mpr ⟨(f.name, raw), hm, rfl⟩
+  apply structSpec_lookup hs hfn f hf
+  unfold fieldSpec
+  rw [lookup_of_mem_nodup hdn hmem]
+  rcases hty with e | e <;> simp [pathDe, pathField, parseScalar, e]
+
+/-- A value that is not UTF-8 after its single decoding is the documented error, naming the
+    parameter — never a replacement character. -/
+theorem path_invalid_utf8 (fields : List Field) (params : List (List Nat × List Nat)) :
+    (∃ p ∈ params, utf8Valid (percentDecode p.2) = false) ↔
+      ∃ k, pathExtract fields params = .error (.invalidUtf8 k) ∧
+        ∃ raw, (k, raw) ∈ params ∧ utf8Valid (percentDecode raw) = false := by
+  constructor
+  · rintro ⟨p, hp, hv⟩
+    cases hd : decodeParams params with
+    | ok dps =>
+      have := (decodeParams_ok_iff.mp hd).1 p hp
+      simp [hv] at this
+    | error e =>
+      obtain ⟨q, hq, h1, h2⟩ := decodeParams_error hd
+      subst h2
+      exact ⟨q.1, by simp [pathExtract, hd], q.2, hq, h1⟩
+  · rintro ⟨k, _, raw, hm, hv⟩
+    exact ⟨(k, raw), hm, hv⟩
+
+/-- Non-vacuity of (4)/(6): `/{id}/{name}` vs `/{name}/{id}` with `name = %2541`, `id = 7`. -/
+example :
+    pathExtract [⟨[105, 100], .s (.u 8)⟩, ⟨[110], .s .string⟩] [([105, 100], [55]), ([110], [37, 50, 53, 52, 49])]
+      = .ok [([105, 100], .s (.int 7)), ([110], .s (.str [37, 52, 49]))] ∧
+    pathExtract [⟨[105, 100], .s (.u 8)⟩, ⟨[110], .s .string⟩] [([110], [37, 50, 53, 52, 49]), ([105, 100], [55])]
+      = .ok [([105, 100], .s (.int 7)), ([110], .s (.str [37, 52, 49]))] ∧
+    pathExtract [⟨[105, 100], .s (.u 8)⟩, ⟨[110], .s .string⟩] [([110], [37, 70, 70]), ([105, 100], [55])]
+      = .error (.invalidUtf8 [110]) ∧
+    pathExtract [⟨[105, 100], .s (.u 8)⟩, ⟨[110], .s .string⟩] [([110], [97]), ([105, 100], [50, 53, 54])]
+      = .error (.parseAt [105, 100] [50, 53, 54] (.u 8)) := by decide
+
+/-- Non-vacuity of (5): `v=1&x=9&v=2&s=a+b` into `{ v: Vec<u32>, s: Vec<String>, d: Vec<i16> (default) }`. -/
+example :
+    queryExtract [⟨[118], .vec (.u 32)⟩, ⟨[115], .vec .string⟩, ⟨[100], .vecDefault (.i 16)⟩]
+      [118, 61, 49, 38, 120, 61, 57, 38, 118, 61, 50, 38, 115, 61, 97, 43, 98]
+      = .ok [([118], .seq [.int 1, .int 2]), ([115], .seq [.str [97, 32, 98]]), ([100], .seq [])] := by decide
+
+/-- The full-strength reading of "invalid UTF-8 after decoding yields the documented extraction
+    error" for query strings / URL-encoded bodies: whenever a pair whose key names a field has a
+    value that is not UTF-8 after `+`/percent decoding, extraction fails. -/
+def query_invalid_utf8_error_statement : Prop :=
+  ∀ (fields : List Field) (bs : List Nat) (k v : List Nat), (k, v) ∈ formPairsRaw bs →
+    (∃ f ∈ fields, f.name = formDecode k) → utf8Valid (formDecodeBytes v) = false →
+    ∃ e, queryExtract fields bs = .error e
+
+/-- **[finding, known]** The faithful model violates it (and so does the code, replayed in
+    corpus/C15): `n=%FF` into `{ n: String }` succeeds with `n = "\u{FFFD}"`. -/
+theorem query_invalid_utf8_not_rejected : ¬ query_invalid_utf8_error_statement := by
+  intro h
+  obtain ⟨e, he⟩ := h [⟨[110], .s .string⟩] [110, 61, 37, 70, 70] [110] [37, 70, 70]
+    (by decide) ⟨⟨[110], .s .string⟩, by simp, by decide⟩ (by decide)
+  have : queryExtract [⟨[110], .s .string⟩] [110, 61, 37, 70, 70] = .ok [([110], .s (.str [239, 191, 189]))] := by
+    decide
+  rw [this] at he
+  cases he
+
+/-- **C15 (7), the part that does hold (`_partial`)**: when every name and value is UTF-8 after
+    decoding, the application sees exactly the decoded bytes — `+` → space and ONE percent-decoding
+    pass, no replacement characters. What is missing for the full statement is an error instead of
+    U+FFFD when some piece is not UTF-8. -/
+theorem query_exact_when_utf8_partial (bs : List Nat)
+    (hu : ∀ kv ∈ formPairsRaw bs, utf8Valid (formDecodeBytes kv.1) = true ∧ utf8Valid (formDecodeBytes kv.2) = true) :
+    formPairsOwned bs =
+      (formPairsRaw bs).map (fun kv => (formDecodeBytes kv.1, formDecodeBytes kv.2, formDecodeBytes kv.2 != kv.2)) := by
+  unfold formPairsOwned
+  apply List.map_congr_left
+  intro kv hkv
+  have hl : ∀ x, utf8Valid x = true → utf8Lossy x = x := by
+    intro x hx
+    unfold utf8Lossy
+    apply utf8LossyAux_of_valid
+    intro hn
+    simp [utf8Valid, utf8Decode, hn] at hx
+  obtain ⟨h1, h2⟩ := hu kv hkv
+  simp [formDecode, hl _ h1, hl _ h2]
 
 end Pxv.ReqData
